@@ -10,5 +10,5 @@ CONSTANTS
   CallMenu <- AdmCalls
   BehMenu <- AdmMenu
 VIEW view
-INVARIANTS InvAtomic InvEffective InvReads InvReply InvEvents InvScriptUsed InvOneRespPerMsg InvPrivate
+INVARIANTS InvAtomic InvEffective InvReads InvReply InvEvents InvScriptUsed InvOneRespPerMsg InvPrivate InvConserve
 CHECK_DEADLOCK FALSE
